@@ -168,15 +168,36 @@ def lookupModule (s : St) (modname : Path) : Option Nat × Bool :=
 /-- an exception (or a failed assertion) was observed: nothing is claimed from here on -/
 def markBad (s : St) (b : Bool) : St := if b then { s with bad := true } else s
 
+/-- `processModule` for every module of the list that is still unprocessed when its turn comes -/
+def pmMany (pm : St → Nat → St) (l : List Nat) (s : St) : St :=
+  l.foldl (fun st m => if getPs st m = .unprocessed then pm st m else st) s
+
+/-- `parent = mod.parent; while isinstance(parent, Module): above.append(parent); parent = parent.parent` -/
+def modulesAbove (st : State) : Nat → Nat → List Nat
+  | 0, _ => []
+  | f+1, i =>
+    match (getObj st i).bind (·.parent) with
+    | some par => if isModuleObj st par then par :: modulesAbove st f par else []
+    | none => []
+
+/-- since fix 0ba6723: the unprocessed packages above a module are processed before it, outermost first -/
+def processAbove (pm : St → Nat → St) (s : St) (t : Nat) : St :=
+  pmMany pm (modulesAbove s.reg (s.reg.objs.length + 1) t).reverse s
+
+/-- `if mod.state is UNPROCESSED: for pack in reversed(above): if pack.state is UNPROCESSED: processModule(pack)` -/
+def gpmAbove (pm : St → Nat → St) (s : St) (t : Nat) : St :=
+  if getPs s t = .unprocessed then processAbove pm s t else s
+
+/-- `if mod.state is UNPROCESSED: processModule(mod)` ; `assert mod.state in (PROCESSING, PROCESSED)` -/
+def gpmOne (pm : St → Nat → St) (s : St) (t : Nat) : St :=
+  let s1 := if getPs s t = .unprocessed then pm s t else s
+  markBad s1 (getPs s1 t == .unprocessed)
+
 /-- `getProcessedModule(modname)`; `pm` is `processModule` (one level of nesting down) -/
 def getProcessedModule (pm : St → Nat → St) (s : St) (modname : Path) : St × Option Nat :=
   match lookupModule s modname with
   | (none, crash) => (markBad s crash, none)
-  | (some t, crash) =>
-    let s0 := markBad s crash
-    let s1 := if getPs s0 t = .unprocessed then pm s0 t else s0
-    -- `assert mod.state in (PROCESSING, PROCESSED)`
-    (markBad s1 (getPs s1 t == .unprocessed), some t)
+  | (some t, crash) => (gpmOne pm (gpmAbove pm (markBad s crash) t) t, some t)
 
 /-! ### `visit_ImportFrom`: the module a (possibly relative) import names -/
 
@@ -254,7 +275,7 @@ def processBeforeMove (pm : St → Nat → St) (s : St) (ob : Nat) : St :=
           (match path s1.reg ob, path s1.reg m with
             | some po, some pm' => po.isPrefixOf pm'
             | _, _ => false)
-      subs.foldl (fun st m => if getPs st m == .unprocessed then pm st m else st) s1
+      pmMany pm subs s1
     | none => { s with bad := true }
   else s
 
@@ -317,6 +338,15 @@ def visitImport (ctx : Nat) (target : Path) (asname : Option Name) (s : St) : St
     | [] => s
     | h :: _ => setAlias s ctx h [h]
 
+/-- the non-empty prefixes of a dotted name, shortest first -/
+def prefixesOf : Path → List Path
+  | [] => []
+  | h :: t => [h] :: (prefixesOf t).map (h :: ·)
+
+/-- since fix 824faae: `import a.b.c [as x]` first calls `getProcessedModule` for `a`, `a.b`, `a.b.c` -/
+def importProcess (pm : St → Nat → St) (target : Path) (s : St) : St :=
+  (prefixesOf target).foldl (fun st p => (getProcessedModule pm st p).1) s
+
 /-- `visit_ImportFrom` / `_importNames` (one alias) -/
 def visitImportFrom (pm : St → Nat → St) (mod ctx : Nat) (level : Nat) (modname : Path) (name : Name)
     (asname : Option Name) (s : St) : St :=
@@ -372,7 +402,7 @@ def enterClass (ctx : Nat) (name : Name) (bases : List Path) (s : St) : St :=
 mutual
 /-- one statement, visited with `builder.current = ctx` inside module `mod` -/
 def visitStmt (pm : St → Nat → St) (mod : Nat) : Nat → Stmt → St → St
-  | ctx, .importMod target asname, s => visitImport ctx target asname s
+  | ctx, .importMod target asname, s => visitImport ctx target asname (importProcess pm target s)
   | ctx, .importFrom level modname name asname, s => visitImportFrom pm mod ctx level modname name asname s
   | ctx, .importStar level modname, s => visitImportStar pm mod ctx level modname s
   -- visit_ClassDef … depart_ClassDef
@@ -881,10 +911,22 @@ def modNamesOk (proj : Project) : Bool := proj.all fun md => md.path.all fun n =
 
 /-- `WF` with the restriction `noReexport` replaced by `reexportShape`, and the implicit submodule lookups of
 `from <package> import …` accounted for (`pkgFromOk`: no hidden import cycle through a package) -/
+def isProperPrefix (p q : Path) : Bool := p.isPrefixOf q && decide (p.length < q.length)
+
+/-- since /repo 0ba6723 `getProcessedModule` first processes the unprocessed packages ABOVE the module it was asked for (as
+Python initialises them): every package above an import target — other than the importing module itself — has a rank below
+the importer's -/
+def aboveOk (proj : Project) (rank : List Nat) : Bool :=
+  allProj proj fun m _ st => (stmtTargets proj m st).all fun t =>
+    match t with
+    | some t => (List.range proj.length).all fun P =>
+        !(isProperPrefix (pathOf proj P) (pathOf proj t)) || P == m || decide (rankOf rank P < rankOf rank m)
+    | none => true
+
 def WFr (proj : Project) (rank : List Nat) : Bool :=
   modulesOk proj && pathsUnique proj && importsOk proj rank && boundOnce proj rank &&
   namesUnique proj && basesNonempty proj && noStarInClass proj && rootsReserved proj &&
-  namesOk proj && reexportShape proj && pkgFromOk proj rank && modNamesOk proj
+  namesOk proj && reexportShape proj && pkgFromOk proj rank && modNamesOk proj && aboveOk proj rank
 
 /-- the qualified name under which the object defined at site `S` is documented once the re-exports
 `mv` says have happened have happened: below the re-exporter, if its top-level definition was moved -/
